@@ -138,13 +138,16 @@ func c06Gen(c *Ctx) {
 		r := t.R
 		units := trieUnits
 		fam := "random-units"
-		switch r.Intn(4) {
+		switch r.Intn(5) {
 		case 0:
 			units = trieASCII
 			fam = "random-abc"
 		case 1:
 			units = trieRaw
 			fam = "random-raw"
+		case 2:
+			units = trieBoundary
+			fam = "random-boundary-runes"
 		}
 		ps := randPatternSet(r, units, 8, 5)
 		tc := trieCase{ops: opsOf(ps), text: []byte(randText(r, units, ps, c.N(12, 30)))}
